@@ -79,8 +79,11 @@ func main() {
 			}
 			return 12 * time.Minute
 		},
-		Extra:  consnet.RunTickerAndHookDriver,
-		Assume: []string{"the real timeoutTicker and types.Hook (replaced by harness objects in the gated executions) are driven separately with real goroutines: every schedule sequence of <= 2 (thorough 3) timeouts over 16 height/round/step values and every sequence of <= 3 (4) Sync/Async hook calls with succeeding and failing callbacks; progress-based oracle, a candidate is reported only when it reproduces 5/5","Byzantine validators sign only with their own key; hash and signature schemes are sound",
+		Extra: func(run *core.Run, cov core.Coverage) {
+			consnet.RunTickerAndHookDriver(run, cov)
+			consnet.RunSoloLivenessDriver(run, cov)
+		},
+		Assume: []string{"the real timeoutTicker and types.Hook (replaced by harness objects in the gated executions) are driven separately with real goroutines: every schedule sequence of <= 2 (thorough 3) timeouts over 16 height/round/step values and every sequence of <= 3 (4) Sync/Async hook calls with succeeding and failing callbacks; progress-based oracle, a candidate is reported only when it reproduces 5/5", "Byzantine validators sign only with their own key; hash and signature schemes are sound",
 			"network model: every message ever sent stays deliverable; the default schedule hands a message to a node when its round state can use it (as gossip does); rules withhold, duplicate, reorder or forge",
 			"toy application (app hash = hash of the block) behind the real hook interface"},
 	}).Main()
